@@ -1,15 +1,21 @@
 """C18 — topology diagnosis and root repair tell the truth about any parent table.
 
-Three families of spaces:
+Spaces:
 
-(a) `dsu-*`      the disjoint-set structure: the COMPLETE reachable state graph (BFS to fixpoint) over
-                 union_sets(a,b) / find_parent(a) / is_same_set(a,b) for n elements, every answer compared
-                 with the reference partition carried in the state; long union scripts (recursion depth).
-(b) `checkers`   every parent table PT(n): is_single_root, has_cyclic, is_sorted, is_bifurcate (+ the
-                 deprecated aliases and tree_utils.is_binary_tree) against graph-theoretic definitions,
-                 each call under a deterministic step horizon (a hang is an answer we can see).
-(c) `repair`     every multi-root forest x id base x repair mode x read options x geometry through
-                 read_swc, and the stand-alone mark_roots_as_somas / link_roots_to_nearest / reset_index.
+(a) `dsu-graph`      the disjoint-set structure: the COMPLETE reachable state graph (BFS to fixpoint) over
+                     union_sets(a,b) / find_parent(a) / is_same_set(a,b) for n elements, every answer compared
+                     with the reference partition carried in the state.
+    `dsu-instances`  every history (length <= 3/4) of unions / re-creations over TWO live instances: no state shared.
+    `dsu-scripts`    6 adversarial union orders at EVERY size 1..400/1300 (+ lowered recursion limit, + 3000/30000).
+(b) `checkers`       every parent table PT(n): is_single_root, has_cyclic, is_sorted, is_bifurcate (+ deprecated
+                     aliases) against graph-theoretic definitions, under id relabellings, each call under a
+                     deterministic step horizon (a hang is an answer we can see); then the same arrays / frame
+                     are edited in place entry by entry and every question is asked again.
+    `checkers-size-sweep`  7 table shapes at every size 1..300/1200 (+ lowered recursion limit).
+    `tree-wrapper`   tree_utils.is_binary_tree on real trees, fresh and after every in-place re-parenting.
+(c) `repair`         every acyclic table with >= 1 root (forests, and single-root inputs as the degenerate case)
+                     x id base x repair mode x read options x geometry through read_swc, and the stand-alone
+                     mark_roots_as_somas / link_roots_to_nearest / reset_index (copying and in-place forms).
 """
 
 from __future__ import annotations
@@ -32,27 +38,41 @@ RULE = (
     "(all ordered pairs incl. a=b), find_parent(a), is_same_set(a,b), explored breadth-first to FIXPOINT on the real object "
     "(state key = every attribute of the object + the reference partition accumulated along the path); every is_same_set / "
     "find_parent answer of every transition is compared with the reference partition, and in every distinct state the "
-    "representatives of all elements are compared pairwise. dsu-scripts: 6 adversarial union orders over N elements. "
+    "representatives of all elements and all pairwise is_same_set answers (asked in sequence on one copy) are compared. "
+    "dsu-instances: every sequence (length <= 3 quick / 4 thorough) over {create/replace instance k, union_sets(a,b) on instance k} "
+    "for two live instances of sizes (3,3),(2,3),(3,2); after every step every instance answers for its own unions only. "
+    "dsu-scripts: 6 adversarial union orders at every size 1..400 (quick) / 1..1300 (thorough), sizes 1..150/200 again under a "
+    "recursion limit lowered to 80 frames, and 3000 / 30000 elements. "
     "checkers: every parent table PT(n) (every function nodes -> {none}+nodes, n up to the tier bound) x id labellings "
-    "(identity; for the id-agnostic functions also +1, 10i+3, reversed, scattered) x int32/int64; answers compared with: one weakly "
-    "connected component / a directed cycle exists / every non-root row has a smaller-numbered parent / no (non-root) node has "
-    "more than two children. repair: every acyclic table with >= 2 roots (all row orders of every forest shape) x id base {0,1,5} x "
-    "fix_roots {False,'somas','nearest'} x {reset_index, no reset, sort_nodes} x geometries {generic, all-coincident, collinear "
-    "lattice} x {7 columns, +1 extra column}; nodes are recognised by a unique radius tag. Non-trivial = at least 2 nodes / 2 elements; "
-    "distinct = distinct table (or DSU state)."
+    "(identity int32/int64, +1, 10i+3, reversed, rotated, scattered); answers compared with: one weakly connected component / a directed "
+    "cycle exists / every row that has a parent has a smaller-numbered one / no (non-root) node has more than two children; then n "
+    "in-place single-entry edits of the same arrays and frame, all questions re-asked after each. checkers-size-sweep: chain, reversed "
+    "chain, cycle, star, two chains, chain with a 3-child node, cycle with a tail at every size. tree-wrapper: every labelled tree "
+    "LT(n) x every well-formedness-preserving re-parenting x {node handle, pid array, copy}. "
+    "repair: every acyclic table with >= 2 roots (all row orders of every forest shape; plus single-root tables as the degenerate input) "
+    "x id base {0,1,5} x fix_roots {False,'somas','nearest'} x {reset_index, no reset, sort_nodes} x geometries {generic, all-coincident, "
+    "lattice} x {7 columns, +1 extra column}; nodes are recognised by a unique radius tag; copying forms are tested for aliasing "
+    "both ways; read results are re-inspected after later calls. Non-trivial = at least 2 nodes / 2 elements; distinct = distinct "
+    "table / history / DSU state."
 )
 ASSUMPTIONS = [
-    "is_sorted is compared only on tables whose ids equal their positions (row order and id order then coincide, so both readings "
-    "of 'parents precede children' agree); has_cyclic only on id labellings that are permutations of 0..n-1 (its documented "
-    "element domain); is_single_root / is_bifurcate on arbitrary distinct non-negative ids",
+    "has_cyclic and is_sorted are exercised only on id labellings that are permutations of 0..n-1 (ids are has_cyclic's disjoint-set "
+    "elements; the library numbers nodes 0..n-1 after reading); is_sorted is asserted only where 'parents precede children' read by row "
+    "position and read by id agree (always when ids = positions), otherwise counted as skipped; is_single_root / is_bifurcate on "
+    "arbitrary distinct non-negative ids",
     "a table row with pid == -1 is a root; any other pid names the row carrying that id (the library's own convention)",
     "repair oracle asserts exactly: one root, every node reaches it, the root is the file's first root, every original (child,parent) "
     "pair is kept, every column other than id/pid is unchanged; the attachment target of a former root is a diagnostic only; the "
-    "type column is only asserted where the former roots already carry the soma type or update_type=False (so 'marking as soma' "
+    "type column is asserted with the former roots already carrying the soma type, or with update_type=False (so 'marking as soma' "
     "and 'leaving the type' both pass)",
     "all coordinates / radii used are multiples of 1/4, exactly representable in text and binary",
-    "step horizon counts python line events inside swcgeom frames only; bound = 400 + 60*n*n events, >= 8x the largest count seen "
-    "on the repaired tree (deterministic, load-independent)",
+    "step horizon counts python line events inside swcgeom frames only; bound = 400 + 60*n*n events, >= 10x the largest count measured "
+    "on the repaired tree for n <= 6 (211 events); deterministic, load-independent. The repair space and the size sweeps run without "
+    "the horizon (their only unbounded loop, get_dsu, is covered under the horizon on every table) but under the kernel's watchdog",
+    "lowered recursion limit = 80 frames above the harness: union by rank needs <= log2(200)+3 frames; any implementation whose "
+    "recursion depth grows linearly also fails at the default limit on the 3000-element scripts",
+    "the DSU state-graph exploration stops with a violation if an object's state keeps growing (transition budget ~8x the size of the "
+    "graph of union-by-rank + path compression): exhaustiveness cannot be claimed for such an object",
 ]
 
 
@@ -244,6 +264,7 @@ def check_dsu_graph(case, R):
 
 
 SCRIPTS = ("fwd", "bwd", "fwd-desc", "bwd-desc", "tournament", "tournament-rev")
+LOWERED = 80  # frames above the harness allowed in the lowered-recursion-limit runs (>= 5x what logarithmic depth needs on <= 200 elements)
 
 
 def _script(kind, m):
@@ -263,52 +284,125 @@ def _script(kind, m):
     return out
 
 
+def _script_pairs(kind, N):
+    """Unions in an adversarial order over the first m = 2N/3 elements; the last (N-m)/2 chained; the rest single."""
+    m = max(1, 2 * N // 3)
+    tail = N - (N - m) // 2
+    return m, _script(kind, m) + [(i, i + 1) for i in range(tail, N - 1)]
+
+
 def check_dsu_script(case, R):
-    """N elements; unions in an adversarial order over the first m = 2N/3; the last 10 chained; the rest single."""
     from swcgeom.utils import DisjointSetUnion
 
-    kind, N = case[1], int(case[2])
-    m = 2 * N // 3
-    pairs = _script(kind, m) + [(i, i + 1) for i in range(N - 10, N - 1)]
-    label = list(range(N))  # reference: naive relabelling on block lists
+    kind, N, extra = case[1], int(case[2]), int(case[3])
+    if N < 2:
+        R.trivial()
+    m, pairs = _script_pairs(kind, N)
+    label = list(range(N))  # reference: relabel the smaller block
     members = {i: [i] for i in range(N)}
-    d = DisjointSetUnion(N)
-    R.state("script", kind, N)
-    for a, b in pairs:
-        ok, _ = call(R, "union_sets", f"script:{kind}", f"script {kind} N={N} union_sets({a},{b})", d.union_sets, a, b)
-        if not ok:
+    kctx = f"script:{kind}" + (":lowered-recursion-limit" if extra else "")
+    R.state("script", kind, N, extra)
+    ok, d = call(R, "DisjointSetUnion", kctx, f"DisjointSetUnion({N})", DisjointSetUnion, N)
+    if not ok:
+        return
+
+    def body():
+        for a, b in pairs:
+            ok, _ = call(R, "union_sets", kctx, f"script {kind} N={N} union_sets({a},{b})", d.union_sets, a, b)
+            if not ok:
+                return
+            la, lb = label[a], label[b]
+            if la != lb:
+                if len(members[la]) < len(members[lb]):
+                    la, lb = lb, la
+                for x in members[lb]:
+                    label[x] = la
+                members[la].extend(members.pop(lb))
+        probes = [(i, 0) for i in range(N)] + [(N - 1, i) for i in range(N)] + [(i, i + 1) for i in range(N - 1)] + [(m - 1, min(m, N - 1)), (0, m - 1)]
+        for a, b in probes:
+            ok, got = call(R, "is_same_set", kctx, f"script {kind} N={N} after {len(pairs)} unions: is_same_set({a},{b})", d.is_same_set, a, b)
+            if not ok:
+                return
+            want = label[a] == label[b]
+            if not R.check(bool(got) == want, "dsu:is_same_set", f"script {kind} N={N}: is_same_set({a},{b}) = {got!r}, want {want}",
+                           f"dsu:script:{kind}:" + ("false-negative" if want else "false-positive")):
+                return
+        reps = {}
+        for i in range(N):
+            ok, r = call(R, "find_parent", kctx, f"script {kind} N={N}: find_parent({i})", d.find_parent, i)
+            if not ok:
+                return
+            reps.setdefault(label[i], set()).add(int(r))
+        R.check(all(len(v) == 1 for v in reps.values()) and len({next(iter(v)) for v in reps.values()}) == len(reps),
+                "dsu:representatives", f"script {kind} N={N}: representatives are not one per block", f"dsu:script:{kind}:representatives")
+        R.outcome(kind, len(reps) if N < 40 else -1)
+
+    if extra:
+        with kernel.recursion_limit(extra):
+            body()
+    else:
+        body()
+
+
+# two live instances (and instances created after others were used / replaced): no state may be shared
+
+def check_dsu_instances(case, R):
+    from swcgeom.utils import DisjointSetUnion
+
+    sizes, seq = [int(x) for x in case[0]], [(int(k), str(op), int(a), int(b)) for k, op, a, b in case[1]]
+    R.state(sizes, seq)
+    inst, labels = [None, None], [None, None]
+    hist = []
+
+    def inspect(live):
+        for j in (0, 1):
+            if inst[j] is None:
+                continue
+            c = inst[j] if live else _clone(inst[j])
+            n = sizes[j]
+            for x in range(n):
+                for y in range(n):
+                    ok, got = call(R, "is_same_set", "instances", lambda: f"sizes {sizes} history {hist}: instance {j} is_same_set({x},{y})", c.is_same_set, x, y)
+                    if not ok:
+                        return False
+                    want = labels[j][x] == labels[j][y]
+                    if not R.check(bool(got) == want, "dsu:instances", lambda: f"sizes {sizes} history {hist}: instance {j} is_same_set({x},{y}) = {got!r}, "
+                                   f"its own unions say {want} (blocks {labels[j]})", "dsu:instances:" + ("false-negative" if want else "false-positive")):
+                        return False
+        return True
+
+    for k, op, a, b in seq:
+        if op == "new" or inst[k] is None:
+            ok, d = call(R, "DisjointSetUnion", "instances", lambda: f"sizes {sizes} history {hist}: DisjointSetUnion({sizes[k]})", DisjointSetUnion, sizes[k])
+            if not ok:
+                return
+            inst[k], labels[k] = d, tuple(range(sizes[k]))
+            hist.append(f"d{k}=new({sizes[k]})")
+        if op == "u":
+            ok, _ = call(R, "union_sets", "instances", lambda: f"sizes {sizes} history {hist}: d{k}.union_sets({a},{b})", inst[k].union_sets, a, b)
+            if not ok:
+                return
+            labels[k] = _merge(labels[k], a, b)
+            hist.append(f"d{k}.union({a},{b})")
+        if not inspect(False):
             return
-        la, lb = label[a], label[b]
-        if la != lb:
-            if len(members[la]) < len(members[lb]):
-                la, lb = lb, la
-            for x in members[lb]:
-                label[x] = la
-            members[la].extend(members.pop(lb))
-    probes = [(i, 0) for i in range(N)] + [(N - 1, i) for i in range(N)] + [(i, i + 1) for i in range(N - 1)] + [(m - 1, m), (0, m - 1)]
-    for a, b in probes:
-        ok, got = call(R, "is_same_set", f"script:{kind}", f"script {kind} N={N} after {len(pairs)} unions: is_same_set({a},{b})", d.is_same_set, a, b)
-        if not ok:
-            return
-        want = label[a] == label[b]
-        if not R.check(bool(got) == want, "dsu:is_same_set", f"script {kind} N={N}: is_same_set({a},{b}) = {got!r}, want {want}",
-                       f"dsu:script:{kind}:" + ("false-negative" if want else "false-positive")):
-            return
-    reps = {}
-    for i in range(N):
-        ok, r = call(R, "find_parent", f"script:{kind}", f"script {kind} N={N}: find_parent({i})", d.find_parent, i)
-        if not ok:
-            return
-        reps.setdefault(label[i], set()).add(int(r))
-    R.check(all(len(v) == 1 for v in reps.values()) and len({next(iter(v)) for v in reps.values()}) == len(reps),
-            "dsu:representatives", f"script {kind} N={N}: representatives are not one per block", f"dsu:script:{kind}:representatives")
-    R.outcome(kind, len(reps))
+    inspect(True)
+    R.outcome(tuple(len(set(l)) if l is not None else 0 for l in labels))
+
+
+def _instance_alphabet(sizes):
+    out = []
+    for k in (0, 1):
+        out.append((k, "new", 0, 0))
+        out += [(k, "u", a, b) for a in range(sizes[k]) for b in range(sizes[k])]
+    return out
 
 
 # =============================================================================== (b) checkers
 
 SCATTER = [7, 2, 9, 4, 11, 5, 13, 1]
-ID_MAPS = ("ident", "plus1", "10i+3", "reversed", "scattered")
+ID_MAPS = ("ident", "plus1", "10i+3", "reversed", "rotated", "scattered")
+PERMS = ("ident", "reversed", "rotated")  # id labellings that are permutations of 0..n-1
 
 
 def id_map(kind, n):
@@ -320,7 +414,12 @@ def id_map(kind, n):
         return [10 * i + 3 for i in range(n)]
     if kind == "reversed":
         return [n - 1 - i for i in range(n)]
+    if kind == "rotated":
+        return [(i + 1) % n for i in range(n)]
     return SCATTER[:n]
+
+
+# reference answers: plain graph algorithms on the parent list (linear time, no numpy, nothing shared with the library)
 
 
 def ref_components(p):
@@ -328,9 +427,12 @@ def ref_components(p):
     comp = list(range(n))
 
     def find(a):
-        while comp[a] != a:
-            a = comp[a]
-        return a
+        r = a
+        while comp[r] != r:
+            r = comp[r]
+        while comp[a] != r:
+            comp[a], a = r, comp[a]
+        return r
 
     for i, q in enumerate(p):
         if q != -1:
@@ -341,14 +443,19 @@ def ref_components(p):
 
 
 def ref_cyclic(p):
+    """A directed cycle exists: some walk along parent pointers returns to a node of the same walk."""
     n = len(p)
+    colour = [0] * n
     for i in range(n):
-        j, steps = i, 0
-        while p[j] != -1:
+        path, j = [], i
+        while j != -1 and colour[j] == 0:
+            colour[j] = 1
+            path.append(j)
             j = p[j]
-            steps += 1
-            if steps > n:
-                return True
+        if j != -1 and colour[j] == 1:
+            return True
+        for k in path:
+            colour[k] = 2
     return False
 
 
@@ -375,95 +482,112 @@ def _bound(n):
     return 400 + 60 * n * n
 
 
+def _answer(R, what, got, want, kctx, dctx):
+    if not isinstance(got, (bool, np.bool_)):
+        R.fail(f"{what}:not-a-bool", f"{_txt(dctx)}: returned {got!r}", f"{what}:not-a-bool:{kctx}")
+        return
+    R.check(bool(got) == want, f"{what}:wrong-answer", lambda: f"{_txt(dctx)}: answered {bool(got)}, the table says {want}",
+            f"{what}:answers-{bool(got)}:{kctx}")
+
+
+def run_checkers(R, p, mk, m, topo, df, H, tag="", which=("single", "bif", "cyc", "sorted"), desc=None):
+    """All four diagnoses of the CURRENT content of (topo, df), which encode parent list p under id labelling m."""
+    from swcgeom.core import swc_utils as su
+
+    n = len(p)
+    cls = table_class(p)
+    kctx = f"{cls}:{'ident' if mk == 'ident' else 'relabelled'}{tag}"
+    dctx = lambda: desc or f"p={p} ids={topo[0].tolist()} pids={topo[1].tolist()} ({topo[0].dtype}){tag}"  # noqa: E731
+    want_bif = {True: ref_bifurcate(p, True), False: ref_bifurcate(p, False)}
+
+    if "single" in which and df is not None:
+        before = (df["id"].tolist(), df["pid"].tolist())
+        ok, got = call(R, "is_single_root", kctx, dctx, su.is_single_root, df, bound=H)
+        if ok:
+            _answer(R, "is_single_root", got, ref_components(p) == 1, kctx, dctx)
+        R.check((df["id"].tolist(), df["pid"].tolist()) == before, "is_single_root:input-modified", dctx, "is_single_root:input-modified")
+
+    snap = (topo[0].tolist(), topo[1].tolist())
+    if "bif" in which:
+        for ex in (True, False):
+            kb = f"{kctx}:exclude_root={ex}:" + ("root>2" if not want_bif[False] and want_bif[True] else "nonroot>2" if not want_bif[True] else "all<=2")
+            ok, got = call(R, "is_bifurcate", kb, dctx, su.is_bifurcate, topo, exclude_root=ex, bound=H)
+            if ok:
+                _answer(R, "is_bifurcate", got, want_bif[ex], kb, lambda: dctx() + f" exclude_root={ex}")
+        if mk == "ident":
+            ok, got = call(R, "is_bifurcate", kctx + ":default", dctx, su.is_bifurcate, topo, bound=H)
+            if ok:
+                _answer(R, "is_bifurcate", got, want_bif[True], kctx + ":default-excludes-root", lambda: dctx() + " (default exclude_root)")
+
+    if mk in PERMS:
+        # has_cyclic: ids are its disjoint-set elements, i.e. a permutation of 0..n-1
+        if "cyc" in which:
+            ok, got = call(R, "has_cyclic", kctx, dctx, su.has_cyclic, topo, bound=H)
+            if ok:
+                _answer(R, "has_cyclic", got, ref_cyclic(p), kctx, dctx)
+        # is_sorted: 'parents precede children' by row and by id; asserted where both readings agree
+        if "sorted" in which:
+            by_row = ref_sorted(p)
+            by_id = all(q == -1 or m[q] < m[i] for i, q in enumerate(p))
+            if by_row != by_id:
+                R.skip("is_sorted: row order and id order disagree on this labelling")
+            else:
+                ok, got = call(R, "is_sorted", kctx, dctx, su.is_sorted, topo, bound=H)
+                if ok:
+                    _answer(R, "is_sorted", got, by_row, kctx + (":reachable-from-0" if _all_reach0(p) else ":not-all-under-node-0"), dctx)
+    R.check((topo[0].tolist(), topo[1].tolist()) == snap, "checker:input-modified", dctx, "checker:input-modified")
+
+
 def check_table(case, R):
     import pandas as pd
 
-    from swcgeom.core import swc_utils as su
     from swcgeom.core.swc_utils import checker as ck
 
-    p = [int(q) for q in case]
+    p, edits, maps = [int(q) for q in case[0]], bool(case[1]), [str(x) for x in case[2]]
     n = len(p)
     if n < 2:
         R.trivial()
     R.state(p)
     cls = table_class(p)
     want_single = ref_components(p) == 1
-    want_cyc = ref_cyclic(p)
-    want_sorted = ref_sorted(p)
     want_bif = {True: ref_bifurcate(p, True), False: ref_bifurcate(p, False)}
-    R.outcome(want_single, want_cyc, want_sorted, want_bif[True], want_bif[False])
+    R.outcome(want_single, ref_cyclic(p), ref_sorted(p), want_bif[True], want_bif[False])
     H = _bound(n)
 
-    def answer(what, got, want, kctx, dctx):
-        if not isinstance(got, (bool, np.bool_)):
-            R.fail(f"{what}:not-a-bool", f"{dctx}: returned {got!r}", f"{what}:not-a-bool:{kctx}")
-            return
-        R.check(bool(got) == want, f"{what}:wrong-answer", f"{dctx}: answered {bool(got)}, the table says {want}",
-                f"{what}:answers-{bool(got)}:{kctx}")
-
-    for mk in ID_MAPS:
+    live = None
+    for mk in maps:
         m = id_map(mk, n)
         ids = [m[i] for i in range(n)]
         pids = [m[q] if q != -1 else -1 for q in p]
         for dt in ((np.int32, np.int64) if mk == "ident" else (np.int64,)):
             topo = (np.array(ids, dtype=dt), np.array(pids, dtype=dt))
-            dctx = f"p={p} ids={ids} pids={pids} ({dt.__name__})"
-            kctx = f"{cls}:{'ident' if mk == 'ident' else 'relabelled'}"
-
-            # --- is_single_root (data-frame API, arbitrary ids)
-            df = pd.DataFrame({"id": topo[0], "pid": topo[1]})
-            before = (df["id"].tolist(), df["pid"].tolist())
-            ok, got = call(R, "is_single_root", kctx, dctx, su.is_single_root, df, bound=H)
-            if ok:
-                answer("is_single_root", got, want_single, kctx, dctx)
-            R.check((df["id"].tolist(), df["pid"].tolist()) == before, "is_single_root:input-modified", dctx, "is_single_root:input-modified")
-
-            # --- is_bifurcate (id-agnostic)
-            for ex in (True, False):
-                kb = f"{kctx}:exclude_root={ex}:" + ("root>2" if not want_bif[False] and want_bif[True] else "nonroot>2" if not want_bif[True] else "all<=2")
-                ok, got = call(R, "is_bifurcate", kb, dctx + f" exclude_root={ex}", su.is_bifurcate, topo, exclude_root=ex, bound=H)
-                if ok:
-                    answer("is_bifurcate", got, want_bif[ex], kb, dctx + f" exclude_root={ex}")
+            df = pd.DataFrame({"id": topo[0].copy(), "pid": topo[1].copy()})
+            run_checkers(R, p, mk, m, topo, df, H)
             if mk == "ident" and dt is np.int32:
-                ok, got = call(R, "is_bifurcate", kctx + ":default", dctx, su.is_bifurcate, topo, bound=H)
-                if ok:
-                    answer("is_bifurcate", got, want_bif[True], kctx + ":default-excludes-root", dctx + " (default exclude_root)")
+                live = (topo, df)
 
-            # --- has_cyclic (ids must be a permutation of 0..n-1: DSU element domain)
-            if mk in ("ident", "reversed"):
-                ok, got = call(R, "has_cyclic", kctx, dctx, su.has_cyclic, topo, bound=H)
-                if ok:
-                    answer("has_cyclic", got, want_cyc, kctx, dctx)
-
-            # --- is_sorted (ids = positions)
-            if mk == "ident":
-                snap = (topo[0].tolist(), topo[1].tolist())
-                ok, got = call(R, "is_sorted", kctx, dctx, su.is_sorted, topo, bound=H)
-                if ok:
-                    answer("is_sorted", got, want_sorted, kctx + (":reachable-from-0" if _all_reach0(p) else ":not-all-under-node-0"), dctx)
-                R.check((topo[0].tolist(), topo[1].tolist()) == snap, "is_sorted:input-modified", dctx, "is_sorted:input-modified")
-
-    # --- deprecated aliases and the Tree-level wrapper (ids = positions)
+    # --- deprecated aliases (ids = positions)
     ids = np.arange(n, dtype=np.int64)
     df = pd.DataFrame({"id": ids, "pid": np.array(p, dtype=np.int64)})
     dctx = f"p={p}"
     ok, got = call(R, "check_single_root", cls, dctx, ck.check_single_root, df, bound=H)
     if ok:
-        answer("check_single_root", got, want_single, cls, dctx)
+        _answer(R, "check_single_root", got, want_single, cls, dctx)
     for ex in (True, False):
         ok, got = call(R, "is_binary_tree(df)", cls, dctx, ck.is_binary_tree, df, ex, bound=H)
         if ok:
-            answer("is_binary_tree(df)", got, want_bif[ex], f"{cls}:exclude_root={ex}", dctx + f" exclude_root={ex}")
-    if cls == "tree" and p[0] == -1:
-        from swcgeom.core import Tree
-        from swcgeom.core import tree_utils as tu
+            _answer(R, "is_binary_tree(df)", got, want_bif[ex], f"{cls}:exclude_root={ex}", dctx + f" exclude_root={ex}")
 
-        t = Tree(n, id=np.arange(n, dtype=np.int32), pid=np.array(p, dtype=np.int32), type=np.full(n, 3, dtype=np.int32),
-                 x=np.arange(n, dtype=np.float32), y=np.zeros(n, dtype=np.float32), z=np.zeros(n, dtype=np.float32), r=np.ones(n, dtype=np.float32))
-        for ex in (True, False):
-            ok, got = call(R, "tree_utils.is_binary_tree", "tree", dctx, tu.is_binary_tree, t, ex, bound=H)
-            if ok:
-                answer("tree_utils.is_binary_tree", got, want_bif[ex], f"tree:exclude_soma={ex}", dctx + f" exclude_soma={ex}")
+    # --- query -> edit the same arrays / frame in place -> query again: answers describe the CURRENT table
+    if edits:
+        topo, df = live
+        cur = list(p)
+        for i in range(n):
+            v = (cur[i] + 2) % (n + 1) - 1  # next value in -1, 0, .., n-1 (cyclically)
+            cur[i] = v
+            topo[1][i] = v
+            df.loc[i, "pid"] = v
+            run_checkers(R, cur, "ident", list(range(n)), topo, df, H, tag=":after-in-place-edit")
 
 
 def _all_reach0(p):
@@ -476,6 +600,91 @@ def _all_reach0(p):
         if j != 0:
             return False
     return True
+
+
+# --------------------------------------------------------------------------- Tree-level wrapper, query-edit-query
+
+
+def check_tree_wrapper(case, R):
+    """tree_utils.is_binary_tree on a real Tree: fresh, and after every admissible single re-parenting made in place
+    (through a node handle, through the pid array, on a copy) once the query has been answered for the old table."""
+    from swcgeom.core import tree_utils as tu
+
+    from mc import build
+
+    p = [int(q) for q in case]
+    n = len(p)
+    if n < 2:
+        R.trivial()
+    R.state(p)
+
+    def ask(t, q, tag):
+        for ex in (True, False):
+            ok, got = call(R, "tree_utils.is_binary_tree", "tree" + tag, f"p={q} exclude_soma={ex}{tag}", tu.is_binary_tree, t, ex)
+            if ok:
+                _answer(R, "tree_utils.is_binary_tree", got, ref_bifurcate(q, ex), f"tree:exclude_soma={ex}{tag}", f"p={q} exclude_soma={ex}{tag}")
+        ok, got = call(R, "tree_utils.is_binary_tree", "tree" + tag, f"p={q} (default){tag}", tu.is_binary_tree, t)
+        if ok:
+            _answer(R, "tree_utils.is_binary_tree", got, ref_bifurcate(q, True), f"tree:default{tag}", f"p={q} (default exclude_soma){tag}")
+
+    t = build.make_tree(p)
+    ask(t, p, "")
+    R.outcome(ref_bifurcate(p, True), ref_bifurcate(p, False))
+    for i, j in build.reparent_edits(p):
+        for how in build.EDIT_HOWS:
+            t = build.make_tree(p)
+            obj, q, other, oq = build.apply_reparent(t, p, (i, j, how), warm=lambda tt: (tu.is_binary_tree(tt, True), tu.is_binary_tree(tt, False)))
+            R.trans(3)
+            ask(obj, q, f":after-edit:{how}")
+            if other is not None:
+                ask(other, oq, f":original-after-copy-edited:{how}")
+
+
+# --------------------------------------------------------------------------- size sweep
+
+SHAPES = ("chain", "rchain", "cycle", "star", "two-chains", "tri-tail", "lollipop")
+
+
+def shape_table(kind, N):
+    if kind == "chain":
+        return [i - 1 for i in range(N)]
+    if kind == "rchain":  # root last, every child before its parent
+        return [i + 1 for i in range(N - 1)] + [-1]
+    if kind == "cycle":
+        return [(i + 1) % N for i in range(N)]
+    if kind == "star":
+        return [-1] + [0] * (N - 1)
+    if kind == "two-chains":
+        h = N // 2
+        return [i - 1 for i in range(h)] + [-1 if i == h else i - 1 for i in range(h, N)]
+    if kind == "tri-tail":  # a chain whose last inner node has three children
+        if N < 5:
+            return [i - 1 for i in range(N)]
+        return [i - 1 for i in range(N - 3)] + [N - 4] * 3
+    # lollipop: a chain hanging below a cycle of 3 (no root at all)
+    if N < 4:
+        return [(i + 1) % N for i in range(N)]
+    return [1, 2, 0] + [i - 1 for i in range(3, N)]
+
+
+def check_sweep(case, R):
+    """One table shape at one size, every size of a range: thresholds (recursion depth, passes, fast paths)."""
+    import pandas as pd
+
+    kind, N, extra = str(case[0]), int(case[1]), int(case[2])
+    p = shape_table(kind, N)
+    R.state(kind, N, extra)
+    R.outcome(kind, ref_components(p) == 1, ref_cyclic(p), ref_sorted(p), ref_bifurcate(p, True), ref_bifurcate(p, False))
+    topo = (np.arange(N, dtype=np.int32), np.array(p, dtype=np.int32))
+    tag = f":sweep:{kind}" + (":lowered-recursion-limit" if extra else "")
+    desc = f"table shape {kind} with {N} nodes (ids = positions)" + (f", recursion limit lowered to {extra} frames above the harness" if extra else "")
+    if extra:
+        # numpy-only checkers under a lowered recursion limit (pandas itself needs a deeper stack)
+        with kernel.recursion_limit(extra):
+            run_checkers(R, p, "ident", list(range(N)), topo, None, None, tag=tag, which=("cyc", "sorted", "bif"), desc=desc)
+    else:
+        df = pd.DataFrame({"id": np.arange(N, dtype=np.int64), "pid": np.array(p, dtype=np.int64)})
+        run_checkers(R, p, "ident", list(range(N)), topo, df, None, tag=tag, desc=desc)
 
 
 # =============================================================================== (c) forests and repair
@@ -637,7 +846,8 @@ def check_forest(case, R):
     n = len(p)
     R.state(p, base)
     r0 = p.index(-1)
-    kbase = f"{'root-first' if r0 == 0 else 'root-not-first'}:{'base0' if base == 0 else 'base>0'}"
+    multi = sum(1 for q in p if q == -1) > 1
+    kbase = ("" if multi else "single-root-input:") + f"{'root-first' if r0 == 0 else 'root-not-first'}:{'base0' if base == 0 else 'base>0'}"
     R.outcome(sum(1 for q in p if q == -1), r0 == 0, base == 0)
 
     for geom, extra in variants:
@@ -646,7 +856,7 @@ def check_forest(case, R):
         text = swc_text(p, rows, base, extra)
         for mode in (False, "somas", "nearest"):
             for oname, opts in READ_OPTS:
-                if mode is False and oname == "sort":
+                if mode is False and oname == "sort" and multi:
                     continue  # sort_nodes requires a single root by contract; not part of the statement
                 what = f"read_swc[fix_roots={mode!r},{oname}]"
                 kw = dict(opts)
@@ -658,10 +868,12 @@ def check_forest(case, R):
                 if not ok:
                     continue
                 df, comments = res
-                good = judge(R, what, kbase, p, rows, df, extra, mode is not False, geom, mode)
+                good = judge(R, what, kbase, p, rows, df, extra, mode is not False or not multi, geom, mode)
+                if oname == "reset" and (geom, extra) == variants[0]:
+                    R.retain(what, lambda v=df: {str(c): v[c].to_numpy() for c in v.columns})
                 msgs = [str(w.message) for w in wlog]
                 simple = any("not a simple tree" in s for s in msgs)
-                if mode is False:
+                if mode is False and multi:
                     R.check(simple, "read:no-warning", f"{what} p={p} base={base}: several roots but no 'not a simple tree' warning; warnings={msgs}",
                             f"{what}:no-warning:{kbase}")
                 elif good:
@@ -673,8 +885,7 @@ def check_forest(case, R):
         varied = make_rows(p, geom, "varied")
         forms = [
             # (name, fn, rows, repaired?, mode, types asserted?)
-            ("mark_roots_as_somas(update_type=False)", lambda d: su.mark_roots_as_somas(d, False), varied, True, "somas", True),
-            ("mark_roots_as_somas(update_type=False)", lambda d: su.mark_roots_as_somas(d, update_type=False), rows, True, "somas", True),
+            ("mark_roots_as_somas(update_type=False)", lambda d: su.mark_roots_as_somas(d, update_type=False), varied, True, "somas", True),
             # default update_type=1: whether former roots become type 1 is not the statement's business -> roots are somas already
             ("mark_roots_as_somas", su.mark_roots_as_somas, rows, True, "somas", True),
             ("link_roots_to_nearest", su.link_roots_to_nearest, rows, True, "nearest", True),
@@ -685,12 +896,22 @@ def check_forest(case, R):
             snap = df_snapshot(df)
             before = df.copy()
             ok, out = call(R, name, kbase, lambda: f"{name} geometry={geom} on\n{before.to_string()}", fn, df)
-            if ok:
-                if R.check(out is not df and hasattr(out, "columns"), "repair:copying-form-returns-input", f"{name}: returned {type(out).__name__}",
-                           f"{name}:return-value"):
-                    judge(R, name, kbase, p, rws, out, extra, repaired, geom, mode, atypes)
-            R.check(df_snapshot(df) == snap, "repair:input-modified", lambda: f"{name} p={p} base={base}: the copying form changed its argument:\n{df.to_string()}",
-                    f"{name}:input-modified")
+            unchanged = R.check(df_snapshot(df) == snap, "repair:input-modified",
+                                lambda: f"{name} p={p} base={base}: the copying form changed its argument:\n{df.to_string()}", f"{name}:input-modified")
+            if ok and R.check(out is not df and hasattr(out, "columns"), "repair:copying-form-returns-input", f"{name}: returned {type(out).__name__}",
+                              f"{name}:return-value"):
+                judge(R, name, kbase, p, rws, out, extra, repaired or not multi, geom, mode, atypes)
+                if unchanged:
+                    # behavioural aliasing: writing into the result must not reach the argument, and vice versa
+                    for c in ("pid", "type", "x"):
+                        out.loc[:, c] = out[c] + 1
+                    R.check(df_snapshot(df) == snap, "repair:result-aliases-input", lambda: f"{name} p={p}: writing into the returned frame changed the argument",
+                            f"{name}:result-aliases-input")
+                    osnap = df_snapshot(out)
+                    for c in ("pid", "type", "x"):
+                        df.loc[:, c] = df[c] + 1
+                    R.check(df_snapshot(out) == osnap, "repair:result-aliases-input", lambda: f"{name} p={p}: writing into the argument changed the returned frame",
+                            f"{name}:result-aliases-input")
         inplace = [
             ("mark_roots_as_somas_", (su.mark_roots_as_somas_,), True, "somas"),
             ("link_roots_to_nearest_", (su.link_roots_to_nearest_,), True, "nearest"),
@@ -706,49 +927,101 @@ def check_forest(case, R):
                 before = df.copy()
                 ok = ok and call(R, name, kbase, lambda: f"{name} ({fn.__name__}) geometry={geom} on\n{before.to_string()}", fn, df)[0]
             if ok:
-                judge(R, name, kbase, p, rows, df, extra, repaired, geom, mode)
+                judge(R, name, kbase, p, rows, df, extra, repaired or not multi, geom, mode)
 
 
 # =============================================================================== spaces
 
 
+def _acyclic_tables(n):
+    """Every acyclic parent table with at least one root (single-root trees in every numbering, and forests)."""
+    for p in S.parent_tables(n):
+        if -1 in p and not ref_cyclic(p):
+            yield p
+
+
 def spaces(tier, seed):
     quick = tier == "quick"
     dsu_n = 6 if quick else 7
-    script_n = 3000 if quick else 30000
     pt_n = 5 if quick else 6
+    edit_n = 4 if quick else 5
     forest_n = 5 if quick else 6
+    single_n = 4 if quick else 5
+    sweep_hi, sweep_low = (300, 120) if quick else (1200, 200)
+    script_hi, script_low, script_big = (400, 150, (3000,)) if quick else (1300, 200, (3000, 30000))
+    wrapper_n = 5 if quick else 6
+    hist_len = 3 if quick else 4
     full = [("generic", False), ("generic", True), ("coincident", False), ("lattice", False)]
     lean = [("generic", False)]
+    mid = [("generic", False), ("coincident", True)]
     # transition budget per graph, ~8x what union-by-rank with path compression needs (3, 30, 210, 2772, 28380, 370266, 4582095)
     caps = {1: 10 ** 3, 2: 10 ** 3, 3: 5000, 4: 50000, 5: 300000, 6: 3 * 10 ** 6, 7: 4 * 10 ** 7}
 
     def gen_dsu():
-        # largest graph first so that it starts at once on its worker
-        for n in sorted(range(1, dsu_n + 1), reverse=not quick):
+        for n in range(1, dsu_n + 1):
             yield ("graph", n, caps[n])
 
     def gen_scripts():
-        for kind in SCRIPTS:
-            for N in ((30, script_n) if quick else (30, 3000, script_n)):
-                yield ("script", kind, N)
+        for N in range(1, script_hi + 1):  # EVERY size: crosses the default recursion limit in thorough
+            for kind in SCRIPTS:
+                yield ("script", kind, N, 0)
+        for N in range(1, script_low + 1):
+            for kind in SCRIPTS:
+                yield ("script", kind, N, LOWERED)
+        for N in script_big:
+            for kind in SCRIPTS:
+                yield ("script", kind, N, 0)
+
+    def gen_instances():
+        for sizes in ((3, 3), (2, 3), (3, 2)):
+            alpha = _instance_alphabet(sizes)
+            for L in range(1, (hist_len if sizes == (3, 3) else 3) + 1):
+                for seq in itertools.product(alpha, repeat=L):
+                    yield (sizes, seq)
 
     def gen_tables():
         for n in range(1, pt_n + 1):
-            yield from S.parent_tables(n)
+            for p in S.parent_tables(n):
+                yield (p, n <= edit_n, ID_MAPS if n <= 5 else ("ident", "10i+3", "reversed", "rotated"))
+
+    def gen_wrapper():
+        for n in range(1, wrapper_n + 1):
+            yield from S.labelled_trees(n)
+
+    def gen_sweep():
+        for N in range(1, sweep_hi + 1):
+            for kind in SHAPES:
+                yield (kind, N, 0)
+        for N in range(1, sweep_low + 1):
+            for kind in SHAPES:
+                yield (kind, N, LOWERED)
 
     def gen_forests():
-        for n in range(2, forest_n + 1):
-            gs = full if n <= (4 if quick else 5) else lean
-            for p in S.forests(n):
-                for base in (0, 1, 5):
-                    yield (p, base, gs)
+        for n in range(1, forest_n + 1):
+            big = n > (4 if quick else 5)
+            for p in _acyclic_tables(n):
+                multi = sum(1 for q in p if q == -1) > 1
+                if not multi and n > single_n:
+                    continue
+                for base in ((0, 1) if big else (0, 1, 5)):
+                    yield (p, base, lean if big else full if multi else mid)
 
     return [
         Space.of("dsu-graph", gen_dsu, check_dsu_graph, bounds={"elements_max": dsu_n, "operations": "union_sets(a,b) all ordered pairs, find_parent(a), is_same_set(a,b)",
                                                                  "depth": "unbounded (BFS to fixpoint)"}, case_timeout=3000.0),
-        Space.of("dsu-scripts", gen_scripts, check_dsu_script, bounds={"elements": script_n, "orders": list(SCRIPTS)}, case_timeout=600.0),
-        Space.of("checkers", gen_tables, check_table, bounds={"PT_max_nodes": pt_n, "id_maps": list(ID_MAPS)}),
-        Space.of("repair", gen_forests, check_forest, bounds={"forest_max_nodes": forest_n, "id_bases": [0, 1, 5], "fix_roots": [False, "somas", "nearest"],
-                                                              "read_options": [o for o, _ in READ_OPTS], "geometries": list(GEOMS), "extra_column": [False, True]}),
+        Space.of("dsu-instances", gen_instances, check_dsu_instances,
+                 bounds={"instances": 2, "sizes": [[3, 3], [2, 3], [3, 2]], "alphabet": "new(k), union_sets on instance k (all ordered pairs)",
+                         "history_length": {"(3,3)": hist_len, "others": 3}}),
+        Space.of("dsu-scripts", gen_scripts, check_dsu_script,
+                 bounds={"orders": list(SCRIPTS), "every_size_up_to": script_hi, "every_size_up_to_with_lowered_recursion_limit": script_low,
+                         "lowered_limit_frames": LOWERED, "large_sizes": list(script_big)}, case_timeout=600.0),
+        Space.of("checkers", gen_tables, check_table, bounds={"PT_max_nodes": pt_n, "id_maps": list(ID_MAPS), "id_maps_at_6_nodes": ["ident", "10i+3", "reversed", "rotated"], "in_place_edit_rounds_up_to_nodes": edit_n}),
+        Space.of("checkers-size-sweep", gen_sweep, check_sweep,
+                 bounds={"shapes": list(SHAPES), "every_size_up_to": sweep_hi, "every_size_up_to_with_lowered_recursion_limit": sweep_low}, case_timeout=600.0),
+        Space.of("tree-wrapper", gen_wrapper, check_tree_wrapper, bounds={"LT_max_nodes": wrapper_n, "edits": "every single re-parenting that keeps the tree well-formed",
+                                                                          "how": ["handle", "column", "copy-then-handle"]}),
+        Space.of("repair", gen_forests, check_forest, bounds={"forest_max_nodes": forest_n, "single_root_input_max_nodes": single_n, "id_bases": "0, 1, 5 (largest size: 0, 1)",
+                                                              "fix_roots": [False, "somas", "nearest"], "read_options": [o for o, _ in READ_OPTS],
+                                                              "geometries": list(GEOMS), "extra_column": [False, True],
+                                                              "largest_size": "generic geometry, 7 columns only"}),
     ]
